@@ -530,7 +530,7 @@ def replay(case):
 
 
 def main(tier):
-    max_states, max_depth = (5000, 7) if tier == "quick" else (25000, 14)
+    max_states, max_depth = (5000, 7) if tier == "quick" else (12000, 10)
     chk = core.Check(
         PID, tier, "model_checking",
         rule=("explicit-state BFS over the real DigitalRFRingbufferHandler on real files: 2 channels (RF chA with 3 files, metadata "
